@@ -6,7 +6,7 @@
 From V Require Import Common.Num C07.Model C07.Gen_FreeEnergy C07.Gen_InitEnergies C07.Gen_MixtureModels C07.Gen_InitData
      C07.InstR C07.ProofsPure C07.ProofsMix C07.Proofs C07.Gen_Rewire C07.Rewire C07.ProofsRewire
      C07.Gen_Packages C07.Packages C07.ProofsPackages
-     C07.Gen_Handles C07.Handles C07.ProofsHandles C07.InstQ C07.ProofsQ.
+     C07.Gen_Handles C07.Handles C07.ProofsHandles C07.InstQ C07.ProofsQ C07.Gen_PhaseHandle.
 From Coq Require Import Reals List.
 From Coquelicot Require Import Coquelicot.
 Import ListNotations.
@@ -287,6 +287,18 @@ Example C07_inv_satisfiable : forall (Cc Hc Sc : Type) (d0 : Cc) h k p sc hv add
   inv Cc Hc Sc d0 (h, fresh Cc Hc Sc d0 h k p sc hv addr :: nil).
 Proof. exact inv_fresh1. Qed.
 
+(* ---------------- phase labels ---------------- *)
+
+(* For each of the five phase labels ('s' 'l' 'g' and the second solid / liquid phases 'S' 'L') the heat-capacity handle
+   (PhaseTHandle: Chemical.Cn) and the enthalpy / entropy handles (PhaseTPHandle: Chemical.H, .S) select the model of the
+   SAME phase, namely the canonical one -- so C07_dH_dT / C07_dS_dT (stated over the three phases) hold for every label,
+   also inside the mixture models, which pass the label through.  Both dispatch tables are generated from
+   base/phase_handle.py (Gen_PhaseHandle.v).  No axioms. *)
+Theorem C07_phase_labels_agree : forall l : label,
+  PhaseTHandle_dispatch l = Some (canonical_phase l) /\ PhaseTPHandle_dispatch l = Some (canonical_phase l).
+Proof. exact phase_labels_agree. Qed.
+Print Assumptions C07_phase_labels_agree.
+
 (* ---------------- model handles keep no state between calls ---------------- *)
 
 (* In any history of calls handle(T) and method switches (handle.method = m), every call returns the value of the
@@ -332,11 +344,13 @@ Proof. exact packages_ordered. Qed.
 Print Assumptions C07_package_mixture_ordered.
 
 (* partial 2: as long as no chemical is changed after the first package exists (whatever was done to the chemicals before
-   is in st0), every package -- built, re-derived by subset / extended, or shared by ideal -- evaluates the current functors *)
+   is in st0), every package -- built, re-derived by subset / extended, shared by ideal, or LOADED FROM A PICKLE together
+   with its chemicals (PLoad with load_ok: the round trip copies the object graph; generated: unpickle_chemical keeps the
+   pickled functor objects, what seeded change C07-11 broke) -- evaluates the current functors of its own chemicals *)
 Theorem C07_package_mixture_aligned_partial : forall (St : Type) (same : nat -> St -> St -> bool),
   (forall c s, same c s s = true) ->
   forall (st0 : St) (ops : list (pop St)) (p : pkg St),
-    List.Forall (no_chem St) ops -> In p (snd (prun St same (st0, nil) ops)) ->
+    List.Forall (no_chem St same) ops -> In p (snd (prun St same (st0, nil) ops)) ->
     List.Forall (entry_tracks St same (fst (prun St same (st0, nil) ops))) (p_models p).
 Proof. exact packages_track_without_chemical_changes. Qed.
 Print Assumptions C07_package_mixture_aligned_partial.
@@ -355,6 +369,8 @@ Print Assumptions C07_constant_setters_keep_functor_objects.
 (* non-vacuity: the hypotheses are satisfiable *)
 Example C07_chem_ok_satisfiable : chem_ok (fun _ _ => 75) (fun _ => 40650) 298 101325 273 373.
 Proof. exact chem_ok_example. Qed.
+Example C07_chem_ok_sublimes_satisfiable : chem_ok (fun _ _ => 40) (fun _ => 25000) 298 101325 217 195.
+Proof. exact chem_ok_sublimes_example. Qed.
 Example C07_models_give_satisfiable :
   models_give (fun f : phase -> option R -> option R -> pyv R => f Pl None None) [const_model 1; const_model 2] [1; 2].
 Proof. exact models_give_example. Qed.
